@@ -18,6 +18,14 @@ import (
 
 func init() { drv.Register("C12", monC12) }
 
+// message types as Thrift defines them (TMessageType); deliberately not taken from the library
+const (
+	mtCall      int32 = 1
+	mtReply     int32 = 2
+	mtException int32 = 3
+	mtOneway    int32 = 4
+)
+
 // c12Envelope checks one (name, type, seq) through 3 writers x 2 readers.
 func c12Envelope(cs *drv.Case, name string, mtype int32, seq int32, sched int) bool {
 	want := ref.EncMessageBegin(nil, name, mtype, seq)
@@ -96,7 +104,7 @@ func c12FirstWord(cs *drv.Case, w uint32) {
 			return
 		}
 		id, ok := typeID(err)
-		if !ok || id != thrift.BAD_VERSION {
+		if !ok || id != int32(4) {
 			cs.Fail("bad-version-error-type", M{"reader": which}, M{"first_word": fmt.Sprintf("%#08x", w), "err": errString(err), "type_id": id, "is_protocol_exception": ok})
 		}
 	}
@@ -113,6 +121,17 @@ func c12FirstWord(cs *drv.Case, w uint32) {
 
 func monC12(c *drv.Ctx) {
 	// (1) random envelopes
+	// the message-type constants a caller passes in are the numbers Thrift assigns
+	c.Stage("wire-constants", 1, true, func(cs *drv.Case) {
+		got := map[string]int32{"INVALID_TMESSAGE_TYPE": thrift.INVALID_TMESSAGE_TYPE, "CALL": thrift.CALL, "REPLY": thrift.REPLY, "EXCEPTION": thrift.EXCEPTION, "ONEWAY": thrift.ONEWAY}
+		want := map[string]int32{"INVALID_TMESSAGE_TYPE": 0, "CALL": mtCall, "REPLY": mtReply, "EXCEPTION": mtException, "ONEWAY": mtOneway}
+		for k, w := range want {
+			if got[k] != w {
+				cs.Fail("message-type-constant", M{"name": k}, M{"got": got[k], "thrift_defines": w})
+			}
+		}
+		cs.Count(true, "constants")
+	})
 	c.Stage("envelopes", c.Pick(200000, 2000000), false, func(cs *drv.Case) {
 		r := cs.R
 		var name string
@@ -207,10 +226,10 @@ func monC12(c *drv.Ctx) {
 			method = ""
 		}
 		seq := gen.I32(r)
-		mt := []int32{thrift.CALL, thrift.REPLY, thrift.ONEWAY, thrift.EXCEPTION, 0, 5, 0x10003}[r.Intn(7)]
+		mt := []int32{mtCall, mtReply, mtOneway, mtException, 0, 5, 0x10003}[r.Intn(7)]
 		payload := &base.BaseResp{StatusMessage: genFieldStr(r), StatusCode: gen.I32(r), Extra: genExtra(r)}
 		cs.Desc = M{"method_len": len(method), "seq": seq, "msg_type": mt}
-		if mt&0xffff == thrift.EXCEPTION && method != "" && r.Intn(2) == 0 {
+		if mt&0xffff == mtException && method != "" && r.Intn(2) == 0 {
 			// an EXCEPTION message built by the independent encoder: fields permuted, unknown and
 			// differently-typed fields (incl. ids 1 and 2 with other types) interleaved
 			tid := gen.I32(r)
@@ -233,7 +252,7 @@ func monC12(c *drv.Ctx) {
 			cs.Count(true, "exc2", shape, b)
 			return
 		}
-		if mt&0xffff == thrift.EXCEPTION {
+		if mt&0xffff == mtException {
 			tid := gen.I32(r)
 			text := string(gen.Bytes(r, r.Intn(30)))
 			ex := thrift.NewApplicationException(tid, text)
